@@ -4,73 +4,62 @@ C17 — no sequence of constructions and assignments yields an invalid region.
 Theorems about `Impl/Validate.lean` (the model of `regions/core/attributes.py`, `metadata.py`,
 `regions.py` and the shape constructors) against the documented domains (`inDomain`, `Valid`).
 
-Every clause of the property is stated at full strength.  Where the model of the CURRENT code
-refutes a clause (findings F11, F12a, F12b, F13a, F13b, F14, F14b, F14c of
-`known_findings/C17.json`) the file keeps `def clause_full : Prop`, proves
-`clause_full_refuted` with a concrete witness, and proves `clause_partial` under a decidable
-predicate that excludes exactly the failing input class.
+Every clause of the property is stated at full strength.  After the repairs of findings F11,
+F12a/b, F13a/b, F14b, F14c (see `known_findings/C17.json`) every clause is PROVED at full
+strength for the model of the current code, with one exception: F14 (annulus inner < outer is
+not checked on assignment) is open, so `valid_invariant_full` is refuted with a concrete witness
+and `valid_invariant_partial` is proved under the decidable predicate that excludes exactly
+that input class; `valid_invariant_no_annulus` is the full-strength statement for every class
+without an (inner, outer) pair, for metadata objects and for region lists.
+
+The only standing hypothesis on inputs is well-formedness of VALUES that are themselves objects
+of this library: a `RegionMeta` / `RegionVisual` value has its keys in the vocabulary (`metaWF`,
+which `meta_entry_points` + `meta_ctor_keysOk` establish for every such object), and the
+`Regions` argument of `extend` is a list of regions (`listOpWF`, by `regions_list_typed`).
 -/
 import RegionsVerif.Impl.Validate
+
+set_option linter.unusedSimpArgs false
 
 namespace RegionsVerif.Props.C17
 open RegionsVerif.Impl.Validate
 
-/-! ## 0. The excluded input classes (one per finding) -/
+/-! ## 0. Well-formed input values -/
 
-/-- [F11] a NaN or +∞ given to a size parameter. -/
-def nonFiniteSize (d : Descr) (v : Val) : Bool :=
-  (d == .posScalar || d == .posScalarAngle) && (v.num == .nan || v.num == .pinf)
-
-/-- a `RegionMeta` / `RegionVisual` VALUE whose keys are in its vocabulary (every Meta object that
-was built and mutated through validated entry points – see `meta_entry_points_partial`). -/
+/-- a `RegionMeta` / `RegionVisual` VALUE whose keys are in its vocabulary: the class invariant of
+`Meta` objects (`meta_ctor_keysOk`, `meta_entry_points`). -/
 def metaWF (v : Val) : Bool :=
   (v.kind != .regionMeta || keysIn metaKeys v.items) &&
   (v.kind != .regionVisual || keysIn visualKeys v.items)
 
 /-! ## 1. Validators: accepted ⇒ documented domain, documented domain ⇒ accepted -/
 
-/-- full strength: whatever a validator accepts lies in the documented domain. -/
-def validator_sound_full : Prop :=
-  ∀ (d : Descr) (v : Val), metaWF v = true → validate d v = .ok () → inDomain d v = true
-
-/-- [F11] `PositiveScalar` accepts NaN (`nan <= 0` is `False`). -/
-theorem validator_sound_full_refuted : ¬ validator_sound_full := by
-  intro h
-  have := h .posScalar { kind := .pyFloat, scalar := true, num := .nan } (by decide) (by decide)
-  exact absurd this (by decide)
-
-/-- … and +∞, and `PositiveScalarAngle` accepts +∞ (but not NaN: `not nan > 0`). -/
-example : validate .posScalar { kind := .pyFloat, scalar := true, num := .pinf } = .ok () := by decide
-example : validate .posScalarAngle
-    { kind := .quantity, scalar := true, phys := .angle, num := .pinf } = .ok () := by decide
-example : validate .posScalarAngle
-    { kind := .quantity, scalar := true, phys := .angle, num := .nan } = .error .valueError := by decide
-
-theorem le_zero_false {n : Num} (h : Num.le n (.fin 0) = false) (h1 : n ≠ .nan) (h2 : n ≠ .pinf) :
+theorem le_zero_false {n : Num} (h : Num.le n (.fin 0) = false) (hf : n.isFinite = true) :
     ∃ q, n = .fin q ∧ 0 < q := by
   cases n with
   | fin q =>
     refine ⟨q, rfl, ?_⟩
     simp only [Num.le, decide_eq_false_iff_not, not_le] at h
     exact h
-  | pinf => exact absurd rfl h2
-  | ninf => simp [Num.le] at h
-  | nan => exact absurd rfl h1
+  | pinf => cases hf
+  | ninf => cases hf
+  | nan => cases hf
 
-theorem zero_lt_true {n : Num} (h : Num.lt (.fin 0) n = true) (h2 : n ≠ .pinf) :
+theorem zero_lt_true {n : Num} (h : Num.lt (.fin 0) n = true) (hf : n.isFinite = true) :
     ∃ q, n = .fin q ∧ 0 < q := by
   cases n with
   | fin q =>
     refine ⟨q, rfl, ?_⟩
     simpa [Num.lt] using h
-  | pinf => exact absurd rfl h2
-  | ninf => simp [Num.lt] at h
-  | nan => simp [Num.lt] at h
+  | pinf => cases hf
+  | ninf => cases hf
+  | nan => cases hf
 
-/-- the property minus F11: every accepted value that is not a NaN / +∞ size is in the
-documented domain (for each of the 11 descriptor kinds). -/
-theorem validator_sound_partial (d : Descr) (v : Val) (hwf : metaWF v = true)
-    (hfin : nonFiniteSize d v = false) (h : validate d v = .ok ()) : inDomain d v = true := by
+/-- **validator_sound** (full strength, all 12 descriptor kinds): whatever a validator accepts
+lies in the documented domain – in particular no NaN, no ±∞, no zero / negative size, no
+non-scalar, no wrong-kind coordinate, no non-angular quantity.  (F11 fixed in 7575e32.) -/
+theorem validator_sound (d : Descr) (v : Val) (hwf : metaWF v = true)
+    (h : validate d v = .ok ()) : inDomain d v = true := by
   cases d with
   | scalarPix =>
     simp only [validate] at h
@@ -90,13 +79,11 @@ theorem validator_sound_partial (d : Descr) (v : Val) (hwf : metaWF v = true)
       · simp [hq, hs] at h
       · by_cases hr : v.isReal = true
         · cases hle : Num.le v.num (.fin 0)
-          · have hn : v.num ≠ .nan ∧ v.num ≠ .pinf := by
-              simp only [nonFiniteSize, beq_self_eq_true, Bool.true_or, Bool.true_and,
-                Bool.or_eq_false_iff, beq_eq_false_iff_ne, ne_eq] at hfin
-              exact hfin
-            obtain ⟨q, hq', hpos⟩ := le_zero_false hle hn.1 hn.2
-            simp only [Bool.not_eq_false] at hs
-            simp [inDomain, hr, hs, hq', hpos]
+          · by_cases hf : v.num.isFinite = true
+            · obtain ⟨q, hq', hpos⟩ := le_zero_false hle hf
+              simp only [Bool.not_eq_false] at hs
+              simp [inDomain, hr, hs, hq', hpos]
+            · simp [hq, hs, pyLeZero, hr, hle, hf] at h
           · simp [hq, hs, pyLeZero, hr, hle] at h
         · simp [hq, hs, pyLeZero, hr] at h
   | scalarSky =>
@@ -136,14 +123,13 @@ theorem validator_sound_partial (d : Descr) (v : Val) (hwf : metaWF v = true)
           split at h
           · cases h
           · rename_i hlt
-            simp only [Bool.not_eq_false] at hs hlt
-            simp only [ne_eq, Decidable.not_not] at hp
-            have hn : v.num ≠ .pinf := by
-              simp only [nonFiniteSize, beq_self_eq_true, Bool.or_true, Bool.true_and,
-                Bool.or_eq_false_iff, beq_eq_false_iff_ne, ne_eq] at hfin
-              exact hfin.2
-            obtain ⟨q, hq', hpos⟩ := zero_lt_true hlt hn
-            simp [inDomain, hk, hs, hp, hq', hpos]
+            split at h
+            · rename_i hf
+              simp only [Bool.not_eq_false] at hs hlt
+              simp only [ne_eq, Decidable.not_not] at hp
+              obtain ⟨q, hq', hpos⟩ := zero_lt_true hlt hf
+              simp [inDomain, hk, hs, hp, hq', hpos]
+            · cases h
     · cases h
   | regionType sky =>
     cases sky <;> simp only [validate, Bool.false_eq_true, ↓reduceIte] at h <;>
@@ -164,12 +150,24 @@ theorem validator_sound_partial (d : Descr) (v : Val) (hwf : metaWF v = true)
       simp only [metaWF, hc, bne_self_eq_false, Bool.false_or, Bool.and_eq_true] at hwf
       simp [inDomain, hc, hwf.2]
     · cases h
+  | text =>
+    simp only [validate] at h
+    split at h
+    · rename_i hc; simp [inDomain, hc]
+    · cases h
 
-/-- the hypotheses of `validator_sound_partial` are satisfiable (a finite positive radius). -/
-example : let v : Val := { kind := .pyFloat, scalar := true, num := .fin 3 }
-    metaWF v = true ∧ nonFiniteSize .posScalar v = false ∧ validate .posScalar v = .ok () := by decide
+/-- the catalogue's special values, now all rejected. -/
+example : validate .posScalar { kind := .pyFloat, scalar := true, num := .nan } = .error .valueError := by
+  decide
+example : validate .posScalar { kind := .npScalar, scalar := true, num := .pinf } = .error .valueError := by
+  decide
+example : validate .posScalarAngle
+    { kind := .quantity, scalar := true, phys := .angle, num := .pinf } = .error .valueError := by decide
+/-- `'abc' <= 0` raises `TypeError`. -/
+example : validate .posScalar { kind := .pyStr, scalar := true } = .error .typeError := by decide
 
-/-- every value of the documented domain is accepted (no valid region is refused). -/
+/-- **validator_complete**: every value of the documented domain is accepted (no valid region is
+refused). -/
 theorem validator_complete (d : Descr) (v : Val) (h : inDomain d v = true) :
     validate d v = .ok () := by
   cases d with
@@ -189,7 +187,7 @@ theorem validator_complete (d : Descr) (v : Val) (h : inDomain d v = true) :
       rw [hnum] at hn
       simp only [decide_eq_true_eq] at hn
       have hd : decide (q ≤ 0) = false := by simpa using hn
-      simp [validate, hk, hs, pyLeZero, hr, hnum, Num.le, hd]
+      simp [validate, hk, hs, pyLeZero, hr, hnum, Num.le, hd, Num.isFinite]
     | pinf => rw [hnum] at hn; simp at hn
     | ninf => rw [hnum] at hn; simp at hn
     | nan => rw [hnum] at hn; simp at hn
@@ -209,7 +207,7 @@ theorem validator_complete (d : Descr) (v : Val) (h : inDomain d v = true) :
     | fin q =>
       rw [hnum] at hn
       simp only [decide_eq_true_eq] at hn
-      simp [validate, hk, hs, hp, hnum, Num.lt, hn]
+      simp [validate, hk, hs, hp, hnum, Num.lt, hn, Num.isFinite]
     | pinf => rw [hnum] at hn; simp at hn
     | ninf => rw [hnum] at hn; simp at hn
     | nan => rw [hnum] at hn; simp at hn
@@ -222,6 +220,13 @@ theorem validator_complete (d : Descr) (v : Val) (h : inDomain d v = true) :
   | rvisual =>
     simp only [inDomain, Bool.and_eq_true, beq_iff_eq] at h
     simp [validate, h.1]
+  | text =>
+    simp only [inDomain, beq_iff_eq] at h
+    simp [validate, h]
+
+/-- both directions are inhabited: a finite positive radius is in the domain and accepted. -/
+example : let v : Val := { kind := .pyFloat, scalar := true, num := .fin 3 }
+    metaWF v = true ∧ inDomain .posScalar v = true ∧ validate .posScalar v = .ok () := by decide
 
 /-- a validator rejects with `ValueError` or `TypeError` only. -/
 theorem validate_exception_class (d : Descr) (v : Val) (e : Exc) (h : validate d v = .error e) :
@@ -237,7 +242,6 @@ theorem validate_exception_class (d : Descr) (v : Val) (e : Exc) (h : validate d
   | _ =>
     simp only [validate] at h
     (repeat' split at h) <;> simp_all
-
 /-! ## 2. Field maps (`instance.__dict__`) -/
 
 theorem lookup_cons' {α : Type} (g k : String) (w : α) (t : List (String × α)) :
@@ -281,29 +285,37 @@ theorem fget_ferase (fs : Fields) (f g : String) (h : g ≠ f) :
 theorem RObj.get_set (o : RObj) (f g : String) (v : Val) :
     (o.set f v).get g = if g = f then some v else o.get g := fget_fset o.fields f g v
 
-/-- what a successful `setattr` did. -/
+/-- what a successful `setattr` did: the class-level check passed, the value was (converted and)
+validated by the descriptor, and only then stored. -/
 theorem assign_ok {o o' : RObj} {f : String} {v : Val} (h : o.assign f v = .ok o') :
+    nvertsPre o f v = .ok () ∧
     ∃ v', o' = o.set f v' ∧
       ((∃ d, (attrs o.cls).lookup f = some (.descr d) ∧ coerce d v = .ok v' ∧ validate d v' = .ok ()) ∨
        (((attrs o.cls).lookup f = some .plain ∨ (attrs o.cls).lookup f = none) ∧ v' = v)) := by
   unfold RObj.assign at h
-  split at h
-  · rename_i d hl
+  cases hn : nvertsPre o f v with
+  | error e => rw [hn] at h; cases h
+  | ok u =>
+    rw [hn] at h
+    simp only at h
+    refine ⟨rfl, ?_⟩
     split at h
-    · cases h
-    · rename_i v' hc
+    · rename_i d hl
       split at h
       · cases h
-      · rename_i hv
-        simp only [Except.ok.injEq] at h
-        exact ⟨v', h.symm, Or.inl ⟨d, hl, hc, hv⟩⟩
-  · cases h
-  · rename_i hl
-    simp only [Except.ok.injEq] at h
-    exact ⟨v, h.symm, Or.inr ⟨Or.inl hl, rfl⟩⟩
-  · rename_i hl
-    simp only [Except.ok.injEq] at h
-    exact ⟨v, h.symm, Or.inr ⟨Or.inr hl, rfl⟩⟩
+      · rename_i v' hc
+        split at h
+        · cases h
+        · rename_i hv
+          simp only [Except.ok.injEq] at h
+          exact ⟨v', h.symm, Or.inl ⟨d, hl, hc, hv⟩⟩
+    · cases h
+    · rename_i hl
+      simp only [Except.ok.injEq] at h
+      exact ⟨v, h.symm, Or.inr ⟨Or.inl hl, rfl⟩⟩
+    · rename_i hl
+      simp only [Except.ok.injEq] at h
+      exact ⟨v, h.symm, Or.inr ⟨Or.inr hl, rfl⟩⟩
 
 /-- `coerce` only touches `meta` / `visual`. -/
 theorem coerce_id (d : Descr) (v : Val) (h1 : d ≠ .rmeta) (h2 : d ≠ .rvisual) : coerce d v = .ok v := by
@@ -318,7 +330,7 @@ theorem readback {o o' : RObj} {f : String} {v : Val} (h : o.assign f v = .ok o'
       (∀ d, (attrs o.cls).lookup f = some (.descr d) → coerce d v = .ok v') ∧
       (∀ d, (attrs o.cls).lookup f = some (.descr d) → d ≠ .rmeta → d ≠ .rvisual → v' = v) ∧
       ((attrs o.cls).lookup f = some .plain ∨ (attrs o.cls).lookup f = none → v' = v) := by
-  obtain ⟨v', rfl, hcase⟩ := assign_ok h
+  obtain ⟨_, v', rfl, hcase⟩ := assign_ok h
   refine ⟨rfl, fun g hg => by simp [RObj.get_set, hg], v', by simp [RObj.get_set], ?_, ?_, ?_⟩
   · intro d hd
     rcases hcase with ⟨d', hd', hc, _⟩ | ⟨hl, _⟩
@@ -382,18 +394,6 @@ theorem dictHas_dictSet (d : Items) (k v : String) : dictHas (dictSet d k v) k =
     · simp only [dictSet, hk, if_false, dictHas, List.any_cons, Bool.or_eq_true]
       exact Or.inr ih
 
-theorem keysIn_foldl_dictSet {vocab : List String} (l d : Items)
-    (hd : keysIn vocab d = true) (hl : keysIn vocab l = true) :
-    keysIn vocab (l.foldl (fun d kv => dictSet d kv.1 kv.2) d) = true := by
-  induction l generalizing d with
-  | nil => exact hd
-  | cons hd' t ih =>
-    simp only [List.foldl_cons]
-    have hl' := (keysIn_iff _ _).mp hl
-    apply ih
-    · exact keysIn_dictSet hd (hl' hd' (List.mem_cons_self ..))
-    · exact (keysIn_iff _ _).mpr fun kv hkv => hl' kv (List.mem_cons_of_mem _ hkv)
-
 theorem setitem_ok {m m' : MetaObj} {k v : String} (h : m.setitem k v = .ok m') :
     keyValid m.vis k = true ∧ m' = { m with items := dictSet m.items (mapKey m.vis k) v } := by
   unfold MetaObj.setitem at h
@@ -450,112 +450,59 @@ theorem setAll_all_valid (m : MetaObj) (l : Items)
       obtain ⟨_, rfl⟩ := setitem_ok hs
       exact ih _ h.2
 
-/-- [F12b] the input class on which the store loop is not atomic: a valid key first, an invalid
-key later. -/
-def seqSplits (vis : Bool) : Items → Bool
-  | [] => false
-  | kv :: t => keyValid vis kv.1 && t.any (fun kv => !keyValid vis kv.1)
-
-theorem setAll_err_unchanged (m : MetaObj) (l : Items) (hs : seqSplits m.vis l = false)
-    (he : (m.setAll l).2 ≠ .ok) : (m.setAll l).1 = m := by
-  cases l with
-  | nil => exact absurd rfl he
-  | cons hd t =>
-    obtain ⟨k, v⟩ := hd
-    simp only [MetaObj.setAll] at he ⊢
-    cases hsi : m.setitem k v with
-    | error e => rfl
-    | ok m' =>
-      obtain ⟨hv, rfl⟩ := setitem_ok hsi
-      rw [hsi] at he
-      simp only [seqSplits, hv, Bool.true_and] at hs
-      exfalso
-      apply he
-      apply setAll_all_valid
-      rw [List.all_eq_true]
-      intro kv hkv
-      have := List.any_eq_false.mp hs kv hkv
-      simpa using this
-
-theorem setAll_append (m : MetaObj) (a b : Items) :
-    m.setAll (a ++ b) = match m.setAll a with
-      | (m', .ok) => m'.setAll b
-      | (m', .err e) => (m', .err e) := by
-  induction a generalizing m with
-  | nil => simp [MetaObj.setAll]
-  | cons hd t ih =>
-    obtain ⟨k, v⟩ := hd
-    simp only [List.cons_append, MetaObj.setAll]
-    cases hs : m.setitem k v with
-    | error e => rfl
-    | ok m' => exact ih m'
-
-/-- the keys `Meta.update(*args, **kw)` goes through, in order (`none`: the call fails before
-looking at any key). -/
-def updateSeq (nargs : Nat) (arg : MetaArg) (kw : Items) : Option Items :=
-  if nargs > 1 then none
-  else match (if nargs = 0 then Except.ok [] else argAsDict arg) with
-    | .error _ => none
-    | .ok other => some (other ++ kw)
-
-/-- [F12b] `update` calls whose first invalid key is preceded by a valid one. -/
-def opSplits (vis : Bool) : MetaOp → Bool
-  | .update nargs arg kw =>
-      (match updateSeq nargs arg kw with
-       | some seq => seqSplits vis seq
-       | none => false)
-  | _ => false
-
-/-- [F12a] `|=` with a key that is not (literally) in the vocabulary. -/
-def iorBad (vis : Bool) : MetaOp → Bool
-  | .ior arg =>
-      (match argAsDict arg with
-       | .ok d => !keysIn (vocabulary vis) d
-       | .error _ => false)
-  | _ => false
-
-theorem update_eq (m : MetaObj) (nargs : Nat) (arg : MetaArg) (kw seq : Items)
-    (h : updateSeq nargs arg kw = some seq) : metaStep m (.update nargs arg kw) = m.setAll seq := by
-  unfold updateSeq at h
+/-- what `Meta.update(*args, **kw)` (and `|=`, which calls it) does: either it raises before
+storing anything, or every key is valid and all of them are stored. -/
+theorem metaUpdate_cases (m : MetaObj) (nargs : Nat) (arg : MetaArg) (kw : Items) :
+    ((metaUpdate m nargs arg kw).1 = m ∧ (metaUpdate m nargs arg kw).2 ≠ .ok) ∨
+    (∃ other, metaUpdate m nargs arg kw = (m.setAll other).1.setAll kw ∧
+      ((m.setAll other).1.setAll kw).2 = .ok) := by
+  unfold metaUpdate
   by_cases hn : nargs > 1
-  · simp [hn] at h
-  · simp only [hn, if_false] at h
-    simp only [metaStep, metaUpdate, hn, if_false]
+  · left; simp [hn]
+  · simp only [hn, if_false]
     cases ha : (if nargs = 0 then Except.ok [] else argAsDict arg) with
-    | error e => rw [ha] at h; cases h
+    | error e => left; simp
     | ok other =>
-      rw [ha] at h
-      simp only [Option.some.injEq] at h
-      subst h
       simp only
-      rw [setAll_append]
-      cases hr : m.setAll other with
-      | mk m' r => cases r <;> rfl
-
-theorem update_none (m : MetaObj) (nargs : Nat) (arg : MetaArg) (kw : Items)
-    (h : updateSeq nargs arg kw = none) :
-    (metaStep m (.update nargs arg kw)).1 = m ∧ (metaStep m (.update nargs arg kw)).2 ≠ .ok := by
-  unfold updateSeq at h
-  by_cases hn : nargs > 1
-  · simp [metaStep, metaUpdate, hn]
-  · simp only [hn, if_false] at h
-    simp only [metaStep, metaUpdate, hn, if_false]
-    cases ha : (if nargs = 0 then Except.ok [] else argAsDict arg) with
-    | error e => simp
-    | ok other => rw [ha] at h; cases h
+      by_cases hany : (other ++ kw).any
+          (fun kv => !(vocabulary m.vis).contains (mapKey m.vis kv.1)) = true
+      · left; rw [if_pos hany]; exact ⟨rfl, by simp⟩
+      · right
+        rw [if_neg hany]
+        have hall : ∀ kv ∈ other ++ kw, keyValid m.vis kv.1 = true := by
+          intro kv hkv
+          simp only [Bool.not_eq_true] at hany
+          have := List.any_eq_false.mp hany kv hkv
+          simpa [keyValid] using this
+        have h1 : (m.setAll other).2 = .ok :=
+          setAll_all_valid m other (List.all_eq_true.mpr fun kv hkv =>
+            hall kv (List.mem_append_left _ hkv))
+        have hv := (setAll_inv m other).1
+        have h2 : ((m.setAll other).1.setAll kw).2 = .ok :=
+          setAll_all_valid _ kw (List.all_eq_true.mpr fun kv hkv => by
+            rw [hv]; exact hall kv (List.mem_append_right _ hkv))
+        refine ⟨other, ?_, h2⟩
+        cases hr : m.setAll other with
+        | mk m' r =>
+          rw [hr] at h1
+          simp only at h1
+          subst h1
+          rfl
 
 /-- a dict-mutation call keeps the class of the object. -/
 theorem metaStep_vis (m : MetaObj) (op : MetaOp) : (metaStep m op).1.vis = m.vis := by
+  have hupd : ∀ nargs arg kw, (metaUpdate m nargs arg kw).1.vis = m.vis := by
+    intro nargs arg kw
+    rcases metaUpdate_cases m nargs arg kw with ⟨h, _⟩ | ⟨other, h, _⟩
+    · rw [h]
+    · rw [h, (setAll_inv _ kw).1, (setAll_inv m other).1]
   cases op with
   | setitem k v =>
     simp only [metaStep]
     cases hs : m.setitem k v with
     | error e => rfl
     | ok m' => obtain ⟨_, rfl⟩ := setitem_ok hs; rfl
-  | update nargs arg kw =>
-    cases hu : updateSeq nargs arg kw with
-    | none => rw [(update_none m nargs arg kw hu).1]
-    | some seq => rw [update_eq m nargs arg kw seq hu]; exact (setAll_inv m seq).1
+  | update nargs arg kw => exact hupd nargs arg kw
   | setdefault k v =>
     simp only [metaStep]
     by_cases hh : dictHas m.items k = true
@@ -567,44 +514,35 @@ theorem metaStep_vis (m : MetaObj) (op : MetaOp) : (metaStep m op).1.vis = m.vis
         obtain ⟨_, rfl⟩ := setitem_ok hs
         simp only [Bool.false_eq_true, if_false]
         split <;> rfl
-  | ior arg =>
-    simp only [metaStep]
-    cases argAsDict arg <;> rfl
+  | ior arg => exact hupd 1 arg []
   | pop k d => simp only [metaStep]; split <;> (try split) <;> rfl
   | popitem => simp only [metaStep]; split <;> rfl
   | clear => rfl
   | delitem k => simp only [metaStep]; split <;> rfl
+
 theorem keysIn_sub {vocab : List String} {d d' : Items} (h : ∀ kv ∈ d', kv ∈ d)
     (hd : keysIn vocab d = true) : keysIn vocab d' = true := by
   rw [keysIn_iff] at hd ⊢
   exact fun kv hkv => hd kv (h kv hkv)
 
-/-- full strength: EVERY dict-mutation entry point keeps the keys inside the vocabulary. -/
-def meta_entry_points_full : Prop :=
-  ∀ (m : MetaObj) (op : MetaOp), m.keysOk = true → (metaStep m op).1.keysOk = true
-
-/-- [F12a] `RegionMeta() |= {'bad': 1}` succeeds. -/
-theorem meta_entry_points_full_refuted : ¬ meta_entry_points_full := by
-  intro h
-  have := h ⟨false, []⟩ (.ior (.mapping [("bad", "1")])) (by decide)
-  exact absurd this (by decide)
-
-/-- the property minus F12a: every entry point other than `|=` with an out-of-vocabulary key
-(`__setitem__`, `update` in all its call forms, `setdefault`, `pop`, `popitem`, `clear`,
-`__delitem__`, and `|=` with valid literal keys) keeps the vocabulary invariant – whether the
-call succeeds or raises. -/
-theorem meta_entry_points_partial (m : MetaObj) (op : MetaOp) (hs : iorBad m.vis op = false)
-    (hk : m.keysOk = true) : (metaStep m op).1.keysOk = true := by
+/-- **meta_entry_points** (full strength): EVERY dict-mutation entry point – `__setitem__`,
+`update` in all its call forms, `setdefault`, `|=`, `pop`, `popitem`, `clear`, `__delitem__` –
+keeps the keys of a `RegionMeta` / `RegionVisual` inside the documented vocabulary, whether the
+call succeeds or raises.  (F12a fixed in 50480bb.) -/
+theorem meta_entry_points (m : MetaObj) (op : MetaOp) (hk : m.keysOk = true) :
+    (metaStep m op).1.keysOk = true := by
+  have hupd : ∀ nargs arg kw, (metaUpdate m nargs arg kw).1.keysOk = true := by
+    intro nargs arg kw
+    rcases metaUpdate_cases m nargs arg kw with ⟨h, _⟩ | ⟨other, h, _⟩
+    · rw [h]; exact hk
+    · rw [h]; exact (setAll_inv _ kw).2.1 ((setAll_inv m other).2.1 hk)
   cases op with
   | setitem k v =>
     simp only [metaStep]
     cases hsi : m.setitem k v with
     | error e => exact hk
     | ok m' => exact (setitem_keysOk hsi hk).1
-  | update nargs arg kw =>
-    cases hu : updateSeq nargs arg kw with
-    | none => rw [(update_none m nargs arg kw hu).1]; exact hk
-    | some seq => rw [update_eq m nargs arg kw seq hu]; exact (setAll_inv m seq).2.1 hk
+  | update nargs arg kw => exact hupd nargs arg kw
   | setdefault k v =>
     simp only [metaStep]
     by_cases hh : dictHas m.items k = true
@@ -616,15 +554,7 @@ theorem meta_entry_points_partial (m : MetaObj) (op : MetaOp) (hs : iorBad m.vis
         have := (setitem_keysOk hsi hk).1
         simp only [Bool.false_eq_true, if_false]
         split <;> exact this
-  | ior arg =>
-    simp only [metaStep]
-    simp only [iorBad] at hs
-    cases ha : argAsDict arg with
-    | error e => exact hk
-    | ok d =>
-      rw [ha] at hs
-      simp only [Bool.not_eq_false'] at hs
-      exact keysIn_foldl_dictSet d m.items hk hs
+  | ior arg => exact hupd 1 arg []
   | pop k d =>
     simp only [metaStep]
     split
@@ -642,20 +572,14 @@ theorem meta_entry_points_partial (m : MetaObj) (op : MetaOp) (hs : iorBad m.vis
     · exact keysIn_sub (fun kv h => (List.mem_filter.mp h).1) hk
     · exact hk
 
-/-- the hypothesis is satisfiable by a `|=` itself (valid literal keys). -/
-example : iorBad false (.ior (.mapping [("label", "a")])) = false := by decide
+/-- `RegionMeta() |= {'bad': 1}` is now refused and leaves the object empty. -/
+example : metaStep ⟨false, []⟩ (.ior (.mapping [("bad", "1")])) = (⟨false, []⟩, .err .keyError) := by
+  decide
 
-/-- the method table: every `dict` method that can insert a key is overridden by `Meta` or
-reaches `__setitem__` (`fromkeys`, via CPython's generic path for subclasses). -/
-def meta_overrides_full : Prop :=
-  ∀ p ∈ dictMutators, p.2 = true → p.1 ∈ metaOverrides ∨ p.1 = "fromkeys"
-
-/-- [F12a] `__ior__` is inherited from `dict`. -/
-theorem meta_overrides_full_refuted : ¬ meta_overrides_full := by
-  unfold meta_overrides_full; decide
-
-theorem meta_overrides_partial :
-    ∀ p ∈ dictMutators, p.1 ≠ "__ior__" → p.2 = true → p.1 ∈ metaOverrides ∨ p.1 = "fromkeys" := by
+/-- the method table: every `dict` method that can insert a key is overridden by `Meta` or reaches
+`__setitem__` (`fromkeys`, via CPython's generic path for subclasses). -/
+theorem meta_overrides :
+    ∀ p ∈ dictMutators, p.2 = true → p.1 ∈ metaOverrides ∨ p.1 = "fromkeys" := by
   decide
 
 /-- constructors (`Meta(seq, **kw)`, `Meta.fromkeys`) only produce objects within the vocabulary. -/
@@ -740,33 +664,24 @@ theorem meta_ctor_exception_class {vis : Bool} {seq : MetaArg} {kw : Items} {e :
       exact Or.inl ((setAll_inv m1 kw).2.2 e (by rw [hkw]))
     · cases h
 
-/-- full strength: a dict-mutation call that raises leaves the object exactly as it was. -/
-def meta_atomic_full : Prop :=
-  ∀ (m : MetaObj) (op : MetaOp), (metaStep m op).2 ≠ .ok → (metaStep m op).1 = m
-
-/-- [F12b] `RegionMeta().update({'label': 'a', 'bad': 1})` raises but keeps `label`. -/
-theorem meta_atomic_full_refuted : ¬ meta_atomic_full := by
-  intro h
-  have := h ⟨false, []⟩ (.update 1 (.mapping [("label", "a"), ("bad", "1")]) []) (by decide)
-  exact absurd this (by decide)
-
-/-- the property minus F12b: every rejected dict-mutation call other than an `update` whose
-first invalid key is preceded by a valid one leaves the object unchanged. -/
-theorem meta_atomic_partial (m : MetaObj) (op : MetaOp) (hs : opSplits m.vis op = false)
-    (he : (metaStep m op).2 ≠ .ok) : (metaStep m op).1 = m := by
+/-- **meta atomicity** (full strength): a dict-mutation call that raises leaves the object exactly
+as it was – including `update`, which validates every key before it stores the first one.
+(F12b fixed in 50480bb.) -/
+theorem meta_atomic (m : MetaObj) (op : MetaOp) (he : (metaStep m op).2 ≠ .ok) :
+    (metaStep m op).1 = m := by
+  have hupd : ∀ nargs arg kw, (metaUpdate m nargs arg kw).2 ≠ .ok →
+      (metaUpdate m nargs arg kw).1 = m := by
+    intro nargs arg kw hne
+    rcases metaUpdate_cases m nargs arg kw with ⟨h, _⟩ | ⟨other, h, hok⟩
+    · exact h
+    · rw [h] at hne; exact absurd hok hne
   cases op with
   | setitem k v =>
     simp only [metaStep] at he ⊢
     cases hsi : m.setitem k v with
     | error e => rfl
     | ok m' => rw [hsi] at he; exact absurd rfl he
-  | update nargs arg kw =>
-    cases hu : updateSeq nargs arg kw with
-    | none => exact (update_none m nargs arg kw hu).1
-    | some seq =>
-      rw [update_eq m nargs arg kw seq hu] at he ⊢
-      simp only [opSplits, hu] at hs
-      exact setAll_err_unchanged m seq hs he
+  | update nargs arg kw => exact hupd nargs arg kw he
   | setdefault k v =>
     simp only [metaStep] at he ⊢
     by_cases hh : dictHas m.items k = true
@@ -779,11 +694,7 @@ theorem meta_atomic_partial (m : MetaObj) (op : MetaOp) (hs : opSplits m.vis op 
         rw [hsi] at he
         simp only [Bool.false_eq_true, if_false, dictHas_dictSet, if_true] at he
         exact absurd rfl he
-  | ior arg =>
-    simp only [metaStep] at he ⊢
-    cases ha : argAsDict arg with
-    | error e => rfl
-    | ok d => rw [ha] at he; exact absurd rfl he
+  | ior arg => exact hupd 1 arg [] he
   | pop k d =>
     simp only [metaStep] at he ⊢
     by_cases hh : dictHas m.items k = true
@@ -802,11 +713,9 @@ theorem meta_atomic_partial (m : MetaObj) (op : MetaOp) (hs : opSplits m.vis op 
     · exact absurd rfl he
     · rename_i hh; simp [hh]
 
-/-- the hypothesis is satisfiable by a failing `update` (invalid key first ⇒ nothing stored). -/
-example : opSplits false (.update 1 (.mapping [("bad", "1"), ("label", "a")]) []) = false ∧
-    (metaStep ⟨false, []⟩ (.update 1 (.mapping [("bad", "1"), ("label", "a")]) [])).2 = .err .keyError := by
-  decide
-
+/-- `update` with a valid key before an invalid one: raises and stores nothing. -/
+example : metaStep ⟨false, [("tag", "t")]⟩ (.update 1 (.mapping [("label", "a"), ("bad", "1")]) [])
+    = (⟨false, [("tag", "t")]⟩, .err .keyError) := by decide
 
 /-! ## 4. Assignment: conversion of `meta` / `visual`, exception classes -/
 
@@ -862,105 +771,104 @@ theorem coerce_exception_class (d : Descr) (v : Val) (e : Exc) (h : coerce d v =
       · cases h
     · cases h
 
+theorem pyLtConst_exception_class (v : Val) (c : ℚ) (e : Exc) (h : pyLtConst v c = .error e) :
+    e = .valueError ∨ e = .typeError := by
+  unfold pyLtConst at h
+  (repeat' split at h) <;> simp_all
+
+theorem nvertsPre_exception_class {o : RObj} {f : String} {v : Val} {e : Exc}
+    (h : nvertsPre o f v = .error e) : e = .valueError ∨ e = .typeError := by
+  unfold nvertsPre at h
+  split at h
+  · cases hv : validate .posScalar v with
+    | error e' =>
+      rw [hv] at h; cases h
+      exact validate_exception_class _ _ _ hv
+    | ok u =>
+      rw [hv] at h
+      simp only at h
+      cases hp : pyLtConst v 3 with
+      | error e' =>
+        rw [hp] at h; cases h
+        exact pyLtConst_exception_class _ _ _ hp
+      | ok b =>
+        rw [hp] at h
+        cases b
+        · cases h
+        · cases h; exact Or.inl rfl
+  · cases h
+
 /-- `setattr` on a descriptor-backed attribute rejects with `ValueError`, `TypeError` or
 `KeyError` – never anything else. -/
 theorem assign_exception_class {o : RObj} {f : String} {v : Val} {d : Descr} {e : Exc}
     (hl : (attrs o.cls).lookup f = some (.descr d)) (h : o.assign f v = .error e) :
     e = .valueError ∨ e = .typeError ∨ e = .keyError := by
   unfold RObj.assign at h
-  rw [hl] at h
-  simp only at h
-  split at h
-  · rename_i e' hc
-    cases h
-    rcases coerce_exception_class d v e hc with h1 | h1
-    · exact Or.inr (Or.inr h1)
+  cases hn : nvertsPre o f v with
+  | error e' =>
+    rw [hn] at h; cases h
+    rcases nvertsPre_exception_class hn with h1 | h1
+    · exact Or.inl h1
     · exact Or.inr (Or.inl h1)
-  · split at h
-    · rename_i e' hv
+  | ok u =>
+    rw [hn, hl] at h
+    simp only at h
+    split at h
+    · rename_i e' hc
       cases h
-      rcases validate_exception_class d _ e hv with h1 | h1
-      · exact Or.inl h1
+      rcases coerce_exception_class d v e hc with h1 | h1
+      · exact Or.inr (Or.inr h1)
       · exact Or.inr (Or.inl h1)
-    · cases h
+    · split at h
+      · rename_i e' hv
+        cases h
+        rcases validate_exception_class d _ e hv with h1 | h1
+        · exact Or.inl h1
+        · exact Or.inr (Or.inl h1)
+      · cases h
 
 /-! ## 5. The `Regions` list -/
 
-/-- [F13a] `insert` of a non-region, [F13b] a non-region appended to the caller's list that the
-constructor kept. -/
-def listOpBad (l : RList) : ListOp → Bool
-  | .insert _ x => !x.isRegion && !l.isTuple
-  | .srcAppend x => !x.isRegion && l.aliased
-  | _ => false
-
-/-- the `Regions` argument of `extend` is itself a valid `Regions` object. -/
+/-- the `Regions` argument of `extend` is itself a valid `Regions` object (by this very theorem). -/
 def listOpWF : ListOp → Bool
   | .extendRegions xs => xs.all (·.isRegion)
   | _ => true
-
-/-- full strength: no list operation puts a non-region into a `Regions` object. -/
-def regions_list_typed_full : Prop :=
-  ∀ (l : RList) (op : ListOp), listOpWF op = true → l.allRegions = true →
-    (listStep l op).1.allRegions = true
-
-/-- [F13a] `Regions([reg]).insert(0, 5)` succeeds. -/
-theorem regions_list_typed_full_refuted : ¬ regions_list_typed_full := by
-  intro h
-  have := h ⟨[], false, false⟩ (.insert 0 ⟨false, "5"⟩) (by decide) (by decide)
-  exact absurd this (by decide)
-
-/-- [F13b] so does appending to the list that was passed to the constructor. -/
-example : (RList.ctor (some ([⟨true, "r"⟩], false))).map
-    (fun l => (listStep l (.srcAppend ⟨false, "5"⟩)).1.allRegions) = .ok false := by decide
 
 theorem all_of_sub {xs ys : List Member} (h : ∀ x ∈ ys, x ∈ xs)
     (hx : xs.all (·.isRegion) = true) : ys.all (·.isRegion) = true := by
   rw [List.all_eq_true] at hx ⊢
   exact fun x hxm => hx x (h x hxm)
 
-/-- the property minus F13a/F13b: constructor-checked lists stay lists of regions under
-`append`, `extend` (list, tuple, `Regions`, non-iterable), `insert` of a region, `__setitem__`,
-`pop`, `reverse`. -/
-theorem regions_list_typed_partial (l : RList) (op : ListOp) (hb : listOpBad l op = false)
-    (hw : listOpWF op = true) (hl : l.allRegions = true) : (listStep l op).1.allRegions = true := by
+/-- **regions_list_typed** (full strength): no list operation – `append`, `extend` (list, tuple,
+`Regions`, non-iterable), `insert`, `__setitem__`, `pop`, `reverse`, nor a later mutation of the
+list that was passed to the constructor – puts a non-region into a `Regions` object.
+(F13a / F13b fixed in b15a97b.) -/
+theorem regions_list_typed (l : RList) (op : ListOp) (hw : listOpWF op = true)
+    (hl : l.allRegions = true) : (listStep l op).1.allRegions = true := by
   unfold RList.allRegions at hl ⊢
   cases op with
   | append x =>
     simp only [listStep]
     cases hx : x.isRegion
     · exact hl
-    · simp only [Bool.not_true, Bool.false_eq_true, if_false]
-      split
-      · exact hl
-      · simp [List.all_append, hl, hx]
+    · simp [List.all_append, hl, hx]
   | extendList xs =>
     simp only [listStep]
     cases hx : xs.all (·.isRegion)
     · exact hl
-    · simp only [Bool.not_true, Bool.false_eq_true, if_false]
-      split
-      · exact hl
-      · simp only [List.all_append, hl, Bool.true_and]
-        exact hx
+    · simp only [Bool.not_true, Bool.false_eq_true, if_false, List.all_append, hl, Bool.true_and]
+      exact hx
   | extendRegions xs =>
-    simp only [listStep]
-    split
-    · exact hl
-    · simp only [listOpWF] at hw
-      simp only [List.all_append, hl, Bool.true_and]
-      exact hw
+    simp only [listStep, listOpWF] at hw ⊢
+    simp only [List.all_append, hl, Bool.true_and]
+    exact hw
   | extendBad => exact hl
   | insert i x =>
     simp only [listStep]
-    split
+    cases hx : x.isRegion
     · exact hl
-    · rename_i ht
-      simp only [listOpBad, Bool.and_eq_false_iff, Bool.not_eq_eq_eq_not, Bool.not_false] at hb
-      have hx : x.isRegion = true := by
-        rcases hb with hb | hb
-        · exact hb
-        · simp only [Bool.not_eq_true] at ht; rw [ht] at hb; cases hb
-      simp only [List.all_append, List.all_cons, List.all_nil, Bool.and_true, Bool.and_eq_true]
+    · simp only [Bool.not_true, Bool.false_eq_true, if_false, List.all_append, List.all_cons,
+        List.all_nil, Bool.and_true, Bool.and_eq_true]
       exact ⟨⟨all_of_sub (fun y hy => List.mem_of_mem_take hy) hl, hx⟩,
              all_of_sub (fun y hy => List.mem_of_mem_drop hy) hl⟩
   | setitem i x => exact hl
@@ -969,24 +877,14 @@ theorem regions_list_typed_partial (l : RList) (op : ListOp) (hb : listOpBad l o
     generalize (if i < 0 then i + (l.items.length : Int) else i) = k
     split
     · exact hl
-    · split
-      · exact hl
-      · exact all_of_sub (fun y hy => List.mem_of_mem_eraseIdx hy) hl
+    · exact all_of_sub (fun y hy => List.mem_of_mem_eraseIdx hy) hl
   | reverse =>
-    simp only [listStep]
-    split
-    · exact hl
-    · simp only [List.all_reverse]; exact hl
-  | srcAppend x =>
-    simp only [listStep]
-    split
-    · rename_i ha
-      simp only [listOpBad, ha, Bool.and_true, Bool.not_eq_false'] at hb
-      simp [List.all_append, hl, hb]
-    · exact hl
+    simp only [listStep, List.all_reverse]; exact hl
+  | srcAppend x => exact hl
 
-/-- `insert` of a region is within the hypotheses. -/
-example : listOpBad ⟨[], false, false⟩ (.insert 0 ⟨true, "r"⟩) = false := by decide
+/-- `Regions([reg]).insert(0, 5)` is refused with `TypeError`, the list unchanged. -/
+example : listStep ⟨[⟨true, "r"⟩]⟩ (.insert 0 ⟨false, "5"⟩) = (⟨[⟨true, "r"⟩]⟩, .err .typeError) := by
+  decide
 
 /-- the constructor only builds lists of regions. -/
 theorem regions_ctor_typed {arg : Option (List Member × Bool)} {l : RList}
@@ -995,10 +893,8 @@ theorem regions_ctor_typed {arg : Option (List Member × Bool)} {l : RList}
   split at h
   · cases h; rfl
   · split at h
-    · cases h; rfl
-    · split at h
-      · rename_i hx; cases h; exact hx
-      · cases h
+    · rename_i hx; cases h; exact hx
+    · cases h
 
 /-- a rejected list operation leaves the list as it was. -/
 theorem listStep_atomic (l : RList) (op : ListOp) (he : (listStep l op).2 ≠ .ok) :
@@ -1007,46 +903,20 @@ theorem listStep_atomic (l : RList) (op : ListOp) (he : (listStep l op).2 ≠ .o
   | pop i =>
     simp only [listStep] at he ⊢
     generalize (if i < 0 then i + (l.items.length : Int) else i) = k at he ⊢
-    by_cases ht : l.isTuple = true
-    · simp [ht]
-    · simp only [ht, Bool.false_eq_true, if_false] at he ⊢
-      split
-      · rfl
-      · rename_i hk
-        simp only [hk, if_false] at he
-        exact absurd rfl he
+    split
+    · rfl
+    · rename_i hk
+      simp only [hk, if_false] at he
+      exact absurd rfl he
   | _ => simp only [listStep] at he ⊢ <;> (repeat' split) <;> simp_all
 
 /-! ## 6. Atomicity and deletion at the level of one history step -/
 
-/-- the Meta object a dict-mutation operation acts on. -/
-def metaTarget : Obj → Op → Option MetaObj
-  | .region o, .metaOp (some f) _ => o.metaAt f
-  | .metaObj m, .metaOp none _ => some m
-  | _, _ => none
-
-/-- [F12b] lifted to history steps. -/
-def stepSplits (o : Obj) (op : Op) : Bool :=
-  match op, metaTarget o op with
-  | .metaOp _ mop, some m => opSplits m.vis mop
-  | _, _ => false
-
-/-- full strength: a rejected operation leaves the object exactly as it was. -/
-def set_atomic_full : Prop :=
-  ∀ (o : Obj) (op : Op), (step o op).2 ≠ .ok → (step o op).1 = o
-
-/-- [F12b] `Meta.update` applies the valid prefix before raising. -/
-theorem set_atomic_full_refuted : ¬ set_atomic_full := by
-  intro h
-  have := h (.metaObj ⟨false, []⟩)
-    (.metaOp none (.update 1 (.mapping [("label", "a"), ("bad", "1")]) [])) (by decide)
-  exact absurd this (by decide)
-
-/-- the property minus F12b: every rejected attribute assignment, attribute deletion, list
-operation, and dict-mutation call other than a splitting `update` leaves the object unchanged
-(validation precedes the store in `RegionAttribute.__set__`). -/
-theorem set_atomic_partial (o : Obj) (op : Op) (hs : stepSplits o op = false)
-    (he : (step o op).2 ≠ .ok) : (step o op).1 = o := by
+/-- **set_atomic** (full strength): a rejected operation – attribute assignment, attribute
+deletion, any dict-mutation call (directly or on `region.meta` / `region.visual`), any list
+operation – leaves the object EXACTLY as it was: validation precedes the store in
+`RegionAttribute.__set__`, in `Meta.update` and in the `Regions` mutators. -/
+theorem set_atomic (o : Obj) (op : Op) (he : (step o op).2 ≠ .ok) : (step o op).1 = o := by
   cases o with
   | region r =>
     cases op with
@@ -1070,9 +940,7 @@ theorem set_atomic_partial (o : Obj) (op : Op) (hs : stepSplits o op = false)
         | some m =>
           rw [hm] at he
           simp only at he ⊢
-          have hs' : opSplits m.vis mop = false := by
-            simpa [stepSplits, metaTarget, hm] using hs
-          rw [meta_atomic_partial m mop hs' he]
+          rw [meta_atomic m mop he]
           simp
     | listOp lop => rfl
   | metaObj m =>
@@ -1081,8 +949,7 @@ theorem set_atomic_partial (o : Obj) (op : Op) (hs : stepSplits o op = false)
       cases fld with
       | none =>
         simp only [step] at he ⊢
-        have hs' : opSplits m.vis mop = false := by simpa [stepSplits, metaTarget] using hs
-        rw [meta_atomic_partial m mop hs' he]
+        rw [meta_atomic m mop he]
       | some f => rfl
     | assign f v => rfl
     | delete f => rfl
@@ -1096,50 +963,10 @@ theorem set_atomic_partial (o : Obj) (op : Op) (hs : stepSplits o op = false)
     | delete f => rfl
     | metaOp fld mop => rfl
 
-/-- in particular EVERY rejected attribute assignment is atomic (no finding touches this clause). -/
-theorem assign_atomic (r : RObj) (f : String) (v : Val)
-    (he : (step (.region r) (.assign f v)).2 ≠ .ok) : (step (.region r) (.assign f v)).1 = .region r :=
-  set_atomic_partial _ _ rfl he
-
-/-- full strength: no shape parameter can be deleted. -/
-def delete_refused_full : Prop :=
-  ∀ (o : RObj) (f : String), ((attrs o.cls).lookup f).isSome = true → ∃ e, o.delete f = .error e
-
-def text0 : RObj := ⟨.textP, [("center", { kind := .pixCoord, scalar := true }),
-  ("meta", emptyMeta), ("visual", emptyVisual), ("text", { kind := .pyStr, tag := "hi" })]⟩
-
-/-- [F14c] `del text_region.text` succeeds (`text` has no descriptor). -/
-theorem delete_refused_full_refuted : ¬ delete_refused_full := by
-  intro h
-  obtain ⟨e, he⟩ := h text0 "text" (by decide)
-  have hok : (text0.delete "text").toBool = true := by decide
-  rw [he] at hok
-  cases hok
-
-/-- the property minus F14c: every parameter bound to a descriptor (and the read-only
-`operator`) refuses deletion with `AttributeError`, and the object is unchanged. -/
-theorem delete_refused_partial (o : RObj) (f : String)
-    (hp : ((attrs o.cls).lookup f).isSome = true) (hn : (attrs o.cls).lookup f ≠ some .plain) :
-    o.delete f = .error .attributeError ∧
-    step (.region o) (.delete f) = (.region o, .err .attributeError) := by
-  have hd : o.delete f = .error .attributeError := by
-    unfold RObj.delete
-    cases hl : (attrs o.cls).lookup f with
-    | none => rw [hl] at hp; cases hp
-    | some a =>
-      cases a with
-      | descr d => rfl
-      | plain => exact absurd hl hn
-      | readonly => rfl
-  exact ⟨hd, by simp [step, hd, RegionsVerif.Impl.Validate.ofExcept]⟩
-
-/-- every descriptor-backed parameter of every class meets the hypotheses. -/
-example : ((attrs .cAnnS).lookup "inner_radius").isSome = true ∧
-    (attrs .cAnnS).lookup "inner_radius" ≠ some .plain := by decide
-
-/-! ## 7. Region objects: one step preserves the invariant -/
-
-theorem attrs_nodup (c : Cls) : ((attrs c).map Prod.fst).Nodup := by cases c <;> decide
+/-- no attribute of the class table is a plain instance attribute any more (F14c fixed in
+ec59199: `text` is bound to a descriptor). -/
+theorem no_plain (c : Cls) : ∀ fa ∈ attrs c, fa.2 ≠ .plain := by
+  cases c <;> decide
 
 theorem mem_of_lookup {α : Type} {l : List (String × α)} {f : String} {a : α}
     (h : l.lookup f = some a) : (f, a) ∈ l := by
@@ -1153,6 +980,29 @@ theorem mem_of_lookup {α : Type} {l : List (String × α)} {f : String} {a : α
       subst hk; subst h; exact List.mem_cons_self ..
     · simp only [hk, if_false] at h
       exact List.mem_cons_of_mem _ (ih h)
+
+/-- **delete_refused** (full strength): no shape parameter (nor `meta`, `visual`, nor the
+read-only `operator`) of any class can be deleted: `AttributeError`, object unchanged. -/
+theorem delete_refused (o : RObj) (f : String) (hp : ((attrs o.cls).lookup f).isSome = true) :
+    o.delete f = .error .attributeError ∧
+    step (.region o) (.delete f) = (.region o, .err .attributeError) := by
+  have hd : o.delete f = .error .attributeError := by
+    unfold RObj.delete
+    cases hl : (attrs o.cls).lookup f with
+    | none => rw [hl] at hp; cases hp
+    | some a =>
+      cases a with
+      | descr d => rfl
+      | plain => exact absurd rfl (no_plain o.cls (f, .plain) (mem_of_lookup hl))
+      | readonly => rfl
+  exact ⟨hd, by simp [step, hd, RegionsVerif.Impl.Validate.ofExcept]⟩
+
+/-- `text` of a text region is such a parameter. -/
+example : ((attrs .textP).lookup "text").isSome = true := by decide
+
+/-! ## 7. Region objects: one step preserves the invariant -/
+
+theorem attrs_nodup (c : Cls) : ((attrs c).map Prod.fst).Nodup := by cases c <;> decide
 
 theorem lookup_of_mem {α : Type} {l : List (String × α)} (hn : (l.map Prod.fst).Nodup)
     {f : String} {a : α} (hm : (f, a) ∈ l) : l.lookup f = some a := by
@@ -1240,15 +1090,6 @@ theorem valid_of_frame {o o' : RObj} (hc : o'.cls = o.cls) (hv : o.validB = true
       rw [hnf] at hl
       exact (hnp _ hl).1 rfl
 
-/-- [F11] / [F14c] (and Meta values corrupted through F12a): a NaN / +∞ size, a non-`str` text,
-a Meta object with out-of-vocabulary keys – as the value for attribute `f` of class `c`. -/
-def valueBad (c : Cls) (f : String) (v : Val) : Bool :=
-  !metaWF v ||
-  (match (attrs c).lookup f with
-   | some (.descr d) => nonFiniteSize d v
-   | some .plain => v.kind != .pyStr
-   | _ => false)
-
 theorem coerce_wf (d : Descr) (v v' : Val) (h : coerce d v = .ok v') (hw : metaWF v = true) :
     metaWF v' = true := by
   by_cases h1 : d = .rmeta
@@ -1279,65 +1120,92 @@ theorem coerce_wf (d : Descr) (v v' : Val) (h : coerce d v = .ok v') (hw : metaW
       · rw [if_neg hc] at h; cases h; exact hw
     · rw [coerce_id d v h1 h2] at h; cases h; exact hw
 
-theorem coerce_nonfinite (d : Descr) (v v' : Val) (h : coerce d v = .ok v')
-    (hn : nonFiniteSize d v = false) : nonFiniteSize d v' = false := by
-  by_cases h1 : d = .rmeta
-  · subst h1; rfl
-  · by_cases h2 : d = .rvisual
-    · subst h2; rfl
-    · rw [coerce_id d v h1 h2] at h; cases h; exact hn
-
-/-- an accepted assignment of a value outside the classes of F11 / F14c stores a value of the
-documented domain. -/
+/-- an accepted assignment stores a value of the documented domain. -/
 theorem assign_fieldOk {o o' : RObj} {f : String} {v : Val} (h : o.assign f v = .ok o')
-    (hb : valueBad o.cls f v = false) (a : Attr) (ha : (attrs o.cls).lookup f = some a) :
+    (hw : metaWF v = true) (a : Attr) (ha : (attrs o.cls).lookup f = some a) :
     fieldOk o' (f, a) = true := by
-  obtain ⟨v', rfl, hcase⟩ := assign_ok h
-  simp only [valueBad, ha, Bool.or_eq_false_iff, Bool.not_eq_false'] at hb
+  obtain ⟨_, v', rfl, hcase⟩ := assign_ok h
   cases a with
   | descr d =>
     rcases hcase with ⟨d', hd', hco, hva⟩ | ⟨hl, _⟩
     · rw [ha] at hd'; cases hd'
       simp only [fieldOk, RObj.get_set, if_true]
-      exact validator_sound_partial d v' (coerce_wf d v v' hco hb.1)
-        (coerce_nonfinite d v v' hco hb.2) hva
+      exact validator_sound d v' (coerce_wf d v v' hco hw) hva
     · rcases hl with hl | hl <;> rw [ha] at hl <;> cases hl
-  | plain =>
-    rcases hcase with ⟨d', hd', _, _⟩ | ⟨_, hv⟩
-    · rw [ha] at hd'; cases hd'
-    · subst hv
-      simp only [fieldOk, RObj.get_set, if_true]
-      simpa using hb.2
+  | plain => exact absurd rfl (no_plain o.cls (f, .plain) (mem_of_lookup ha))
   | readonly => rfl
 
-/-- [F14] / [F14b]: the object has inner ≥ outer, or a regular polygon with fewer than 3 vertices. -/
-def crossBad (o : RObj) : Bool := !((orderPairs o.cls).all (pairOk o) && nvertsOk o)
+/-- an accepted assignment keeps `nvertices >= 3` (checked by `__setattr__` of the regular polygon;
+F14b fixed in 942a7aa). -/
+theorem assign_nvertsOk {o o' : RObj} {f : String} {v : Val} (hv : nvertsOk o = true)
+    (h : o.assign f v = .ok o') (hw : metaWF v = true) : nvertsOk o' = true := by
+  obtain ⟨hpre, v', rfl, hcase⟩ := assign_ok h
+  by_cases hc : o.cls = .regPolyP ∧ f = "nvertices"
+  · obtain ⟨hcls, hf⟩ := hc
+    subst hf
+    have hl : (attrs o.cls).lookup "nvertices" = some (.descr .posScalar) := by rw [hcls]; decide
+    -- the stored value is the assigned one
+    have hv' : v' = v := by
+      rcases hcase with ⟨d', hd', hco, _⟩ | ⟨hl', _⟩
+      · rw [hl] at hd'; cases hd'
+        rw [coerce_id _ v (by simp) (by simp)] at hco
+        cases hco; rfl
+      · rcases hl' with hl' | hl' <;> rw [hl] at hl' <;> cases hl'
+    subst hv'
+    -- what the class-level check established
+    unfold nvertsPre at hpre
+    simp only [hcls, and_self, if_true] at hpre
+    cases hva : validate .posScalar v' with
+    | error e => rw [hva] at hpre; cases hpre
+    | ok u =>
+      rw [hva] at hpre
+      simp only at hpre
+      have hdom := validator_sound .posScalar v' hw hva
+      simp only [inDomain, Bool.and_eq_true] at hdom
+      obtain ⟨⟨hreal, _⟩, hn⟩ := hdom
+      cases hnum : v'.num with
+      | fin q =>
+        have hlt : pyLtConst v' 3 = .ok (Num.lt v'.num (.fin 3)) := by
+          unfold Val.isReal at hreal
+          unfold pyLtConst
+          split at hreal <;> simp_all
+        rw [hlt, hnum] at hpre
+        simp only [Num.lt] at hpre
+        have h3 : ¬ q < 3 := by
+          intro hq
+          simp [hq] at hpre
+        simp only [nvertsOk, RObj.get_set, if_true, hnum, Num.le, Bool.or_eq_true, decide_eq_true_eq]
+        exact Or.inr (not_lt.mp h3)
+      | pinf => rw [hnum] at hn; cases hn
+      | ninf => rw [hnum] at hn; cases hn
+      | nan => rw [hnum] at hn; cases hn
+  · rw [nvertsOk_congr (o := o) (o' := o.set f v') rfl]
+    · exact hv
+    · intro hr
+      have hne : "nvertices" ≠ f := fun hnf => hc ⟨hr, hnf.symm⟩
+      simp [RObj.get_set, hne]
 
-/-- the failing input classes of an attribute assignment: it is ACCEPTED and the value is a
-non-finite size (F11) / a non-`str` text (F14c) / a corrupted Meta object (F12a), or afterwards
-inner ≥ outer (F14) / nvertices < 3 (F14b). -/
-def assignBad (o : RObj) (f : String) (v : Val) : Bool :=
-  match o.assign f v with
-  | .error _ => false
-  | .ok o' => valueBad o.cls f v || crossBad o'
+/-- [F14] the object has inner ≥ outer (the only constraint that assignment does not enforce). -/
+def orderBad (o : RObj) : Bool := !(orderPairs o.cls).all (pairOk o)
 
 theorem assign_valid {o o' : RObj} {f : String} {v : Val} (hv : o.validB = true)
-    (h : o.assign f v = .ok o') (hb : assignBad o f v = false) : o'.validB = true := by
-  simp only [assignBad, h, Bool.or_eq_false_iff] at hb
-  obtain ⟨hvb, hcb⟩ := hb
+    (h : o.assign f v = .ok o') (hw : metaWF v = true) (hb : orderBad o' = false) :
+    o'.validB = true := by
   obtain ⟨hc, hframe, _⟩ := readback h
-  simp only [crossBad, Bool.not_eq_false', Bool.and_eq_true, List.all_eq_true] at hcb
+  simp only [orderBad, Bool.not_eq_false', List.all_eq_true] at hb
+  have hnv := assign_nvertsOk ((validB_iff o).mp hv).2.2 h hw
   rw [validB_iff] at hv ⊢
-  refine ⟨?_, hcb.1, hcb.2⟩
+  refine ⟨?_, hb, hnv⟩
   intro fa hfa
   obtain ⟨g, a⟩ := fa
   rw [hc] at hfa
   by_cases hg : g = f
-  · subst hg; exact assign_fieldOk h hvb a (lookup_of_mem (attrs_nodup _) hfa)
+  · subst hg; exact assign_fieldOk h hw a (lookup_of_mem (attrs_nodup _) hfa)
   · rw [fieldOk_congr (g, a) (hframe g hg)]; exact hv.1 _ hfa
 
+/-- an accepted `delattr` can only concern an attribute outside the class table. -/
 theorem delete_valid {o o' : RObj} {f : String} (hv : o.validB = true)
-    (h : o.delete f = .ok o') (hn : (attrs o.cls).lookup f ≠ some .plain) : o'.validB = true := by
+    (h : o.delete f = .ok o') : o'.validB = true := by
   unfold RObj.delete at h
   cases hl : (attrs o.cls).lookup f with
   | some a =>
@@ -1345,7 +1213,7 @@ theorem delete_valid {o o' : RObj} {f : String} (hv : o.validB = true)
     cases a with
     | descr d => cases h
     | readonly => cases h
-    | plain => exact absurd hl hn
+    | plain => exact absurd rfl (no_plain o.cls (f, .plain) (mem_of_lookup hl))
   | none =>
     rw [hl] at h
     simp only at h
@@ -1372,9 +1240,9 @@ theorem metaAt_some {o : RObj} {f : String} {m : MetaObj} (h : o.metaAt f = some
       · rename_i hk; cases h; exact ⟨v, rfl, rfl, Or.inr ⟨hk, rfl⟩⟩
       · cases h
 
-/-- a dict-mutation call on `region.meta` / `region.visual` (any call but a bad `|=`). -/
+/-- any dict-mutation call on `region.meta` / `region.visual` keeps the region valid. -/
 theorem metaOp_valid {o : RObj} {f : String} {m : MetaObj} (mop : MetaOp) (hv : o.validB = true)
-    (hm : o.metaAt f = some m) (hb : iorBad m.vis mop = false) :
+    (hm : o.metaAt f = some m) :
     (if (metaStep m mop).1 = m then o else o.set f (metaStep m mop).1.toVal).validB = true := by
   by_cases hsame : (metaStep m mop).1 = m
   · rw [if_pos hsame]; exact hv
@@ -1399,7 +1267,7 @@ theorem metaOp_valid {o : RObj} {f : String} {m : MetaObj} (mop : MetaOp) (hv : 
           simp only [inDomain, hk, beq_self_eq_true, Bool.true_and] at hfo
           have hk0 : m.keysOk = true := by
             simp only [MetaObj.keysOk, hmv, vocabulary, hitems]; exact hfo
-          have := meta_entry_points_partial m mop hb hk0
+          have := meta_entry_points m mop hk0
           simp [MetaObj.keysOk, hvis, hmv, vocabulary] at this
           simp [inDomain, MetaObj.toVal, hvis, hmv, this]
         · have hd : d = .rvisual := by
@@ -1410,7 +1278,7 @@ theorem metaOp_valid {o : RObj} {f : String} {m : MetaObj} (mop : MetaOp) (hv : 
           simp only [inDomain, hk, beq_self_eq_true, Bool.true_and] at hfo
           have hk0 : m.keysOk = true := by
             simp only [MetaObj.keysOk, hmv, vocabulary, hitems]; exact hfo
-          have := meta_entry_points_partial m mop hb hk0
+          have := meta_entry_points m mop hk0
           simp [MetaObj.keysOk, hvis, hmv, vocabulary] at this
           simp [inDomain, MetaObj.toVal, hvis, hmv, this]
       | plain =>
@@ -1425,49 +1293,53 @@ theorem metaOp_valid {o : RObj} {f : String} {m : MetaObj} (mop : MetaOp) (hv : 
 
 /-! ## 8. Histories: every sequence of operations of any length -/
 
-/-- the failing input classes of one history step (see each definition): F11, F14, F14b, F14c and
-corrupted Meta values for an assignment; F14c for a deletion; F12a for a dict-mutation call;
-F13a/F13b for a list operation (whose `Regions` argument, if any, must itself be valid). -/
+/-- well-formed operation inputs: a value that is itself a `RegionMeta` / `RegionVisual` satisfies
+the `Meta` class invariant, the `Regions` argument of `extend` is a valid `Regions`. -/
+def opWF : Op → Bool
+  | .assign _ v => metaWF v
+  | .listOp lop => listOpWF lop
+  | _ => true
+
+/-- [F14] the one failing input class of a history step: an ACCEPTED attribute assignment after
+which an annulus has inner ≥ outer. -/
 def opBad (o : Obj) (op : Op) : Bool :=
   match o, op with
-  | .region r, .assign f v => assignBad r f v
-  | .region r, .delete f => (attrs r.cls).lookup f == some .plain
-  | .region r, .metaOp (some f) mop =>
-      (match r.metaAt f with
-       | some m => iorBad m.vis mop
-       | none => false)
-  | .metaObj m, .metaOp none mop => iorBad m.vis mop
-  | .rlist l, .listOp lop => listOpBad l lop || !listOpWF lop
+  | .region r, .assign f v =>
+      (match r.assign f v with
+       | .ok r' => orderBad r'
+       | .error _ => false)
   | _, _ => false
 
-/-- does a history contain a step of a failing class (evaluated along the history). -/
+/-- does a history contain a step of the failing class (evaluated along the history). -/
 def histBad : Obj → List Op → Bool
   | _, [] => false
   | o, op :: ops => opBad o op || histBad (step o op).1 ops
 
-/-- full strength: from a valid object, EVERY sequence of operations leads to a valid object. -/
-def valid_invariant_full : Prop := ∀ (o : Obj) (ops : List Op), Valid o → Valid (run o ops)
+/-- full strength: from a valid object, EVERY sequence of (well-formed) operations leads to a
+valid object. -/
+def valid_invariant_full : Prop :=
+  ∀ (o : Obj) (ops : List Op), Valid o → ops.all opWF = true → Valid (run o ops)
 
 def annulus0 : RObj := ⟨.cAnnP, [("center", { kind := .pixCoord, scalar := true }),
   ("inner_radius", { kind := .pyInt, scalar := true, num := .fin 2 }),
   ("outer_radius", { kind := .pyInt, scalar := true, num := .fin 5 }),
   ("meta", emptyMeta), ("visual", emptyVisual)]⟩
 
-/-- [F14] `annulus.inner_radius = 10` with `outer_radius = 5` is accepted. -/
+/-- [F14, open] `annulus.inner_radius = 10` with `outer_radius = 5` is accepted. -/
 theorem valid_invariant_full_refuted : ¬ valid_invariant_full := by
   intro h
   have := h (.region annulus0)
-    [.assign "inner_radius" { kind := .pyInt, scalar := true, num := .fin 10 }] (by decide)
+    [.assign "inner_radius" { kind := .pyInt, scalar := true, num := .fin 10 }] (by decide) (by decide)
   exact absurd this (by decide)
 
-/-- [F11] so is `annulus.outer_radius = nan`, [F14c] `del text.text`, [F14b] `nvertices = 2` … -/
-example : ¬ Valid (run (.region annulus0)
-    [.assign "outer_radius" { kind := .pyFloat, scalar := true, num := .nan }]) := by decide
-example : ¬ Valid (run (.region text0) [.delete "text"]) := by decide
+/-- the repaired classes stay repaired: NaN, `del`, `nvertices = 2` are all refused. -/
+example : (step (.region annulus0)
+    (.assign "outer_radius" { kind := .pyFloat, scalar := true, num := .nan })).2 = .err .valueError := by
+  decide
 
-/-- one step outside the failing classes keeps the invariant – whether it is accepted or rejected. -/
-theorem step_valid (o : Obj) (op : Op) (hv : Valid o) (hb : opBad o op = false) :
-    Valid (step o op).1 := by
+/-- one step outside the failing class keeps the invariant – whether it is accepted or rejected. -/
+theorem step_valid (o : Obj) (op : Op) (hv : Valid o) (hw : opWF op = true)
+    (hb : opBad o op = false) : Valid (step o op).1 := by
   cases o with
   | region r =>
     simp only [Valid] at hv
@@ -1476,29 +1348,29 @@ theorem step_valid (o : Obj) (op : Op) (hv : Valid o) (hb : opBad o op = false) 
       simp only [step, opBad] at hb ⊢
       cases ha : r.assign f v with
       | error e => exact hv
-      | ok r' => exact assign_valid hv ha hb
+      | ok r' =>
+        rw [ha] at hb
+        exact assign_valid hv ha hw hb
     | delete f =>
-      simp only [step, opBad] at hb ⊢
+      simp only [step]
       cases ha : r.delete f with
       | error e => exact hv
-      | ok r' => exact delete_valid hv ha (by simpa using hb)
+      | ok r' => exact delete_valid hv ha
     | metaOp fld mop =>
       cases fld with
       | none => exact hv
       | some f =>
-        simp only [step, opBad] at hb ⊢
+        simp only [step]
         cases hm : r.metaAt f with
         | none => exact hv
-        | some m =>
-          rw [hm] at hb
-          exact metaOp_valid mop hv hm hb
+        | some m => exact metaOp_valid mop hv hm
     | listOp lop => exact hv
   | metaObj m =>
     simp only [Valid] at hv
     cases op with
     | metaOp fld mop =>
       cases fld with
-      | none => exact meta_entry_points_partial m mop hb hv
+      | none => exact meta_entry_points m mop hv
       | some f => exact hv
     | assign f v => exact hv
     | delete f => exact hv
@@ -1506,63 +1378,113 @@ theorem step_valid (o : Obj) (op : Op) (hv : Valid o) (hb : opBad o op = false) 
   | rlist l =>
     simp only [Valid] at hv
     cases op with
-    | listOp lop =>
-      simp only [opBad, Bool.or_eq_false_iff, Bool.not_eq_false'] at hb
-      exact regions_list_typed_partial l lop hb.1 hb.2 hv
+    | listOp lop => exact regions_list_typed l lop hw hv
     | assign f v => exact hv
     | delete f => exact hv
     | metaOp fld mop => exact hv
 
-/-- **valid_invariant** (the property minus the findings): from a valid object, every history of
-ANY length none of whose steps falls in a failing input class leads to a valid object: all
-parameters present and in their documented domains, inner < outer, metadata keys within the
-vocabulary, list members regions.  (Induction over the operation list.) -/
+/-- **valid_invariant** (the property minus F14): from a valid object, every history of ANY length
+none of whose steps is an accepted inner ≥ outer assignment leads to a valid object: all
+parameters present and in their documented domains, inner < outer, nvertices ≥ 3, metadata keys
+within the vocabulary, list members regions.  (Induction over the operation list.) -/
 theorem valid_invariant_partial (o : Obj) (ops : List Op) (hv : Valid o)
-    (hb : histBad o ops = false) : Valid (run o ops) := by
+    (hw : ops.all opWF = true) (hb : histBad o ops = false) : Valid (run o ops) := by
   induction ops generalizing o with
   | nil => exact hv
   | cons op ops ih =>
     simp only [histBad, Bool.or_eq_false_iff] at hb
-    exact ih _ (step_valid o op hv hb.1) hb.2
+    simp only [List.all_cons, Bool.and_eq_true] at hw
+    exact ih _ (step_valid o op hv hw.1 hb.1) hw.2 hb.2
 
 /-- the hypotheses are met by a history that mixes accepted and rejected operations. -/
 example : Valid (.region annulus0) ∧ histBad (.region annulus0)
     [.assign "outer_radius" { kind := .pyFloat, scalar := true, num := .fin 7 },
      .assign "inner_radius" { kind := .pyStr, scalar := true, tag := "abc" },
+     .assign "outer_radius" { kind := .pyFloat, scalar := true, num := .nan },
      .delete "center",
      .metaOp (some "meta") (.setitem "label" "x"),
-     .metaOp (some "meta") (.update 1 (.mapping [("bad", "1")]) []),
+     .metaOp (some "meta") (.ior (.mapping [("bad", "1")])),
      .assign "inner_radius" { kind := .pyInt, scalar := true, num := .fin 3 }] = false := by decide
+
+/-- objects without an (inner, outer) pair: every region class but the six annuli, every
+metadata object, every region list. -/
+def noPairs : Obj → Prop
+  | .region r => orderPairs r.cls = []
+  | _ => True
+
+theorem step_noPairs (o : Obj) (op : Op) (h : noPairs o) : noPairs (step o op).1 := by
+  cases o with
+  | region r =>
+    simp only [noPairs] at h
+    cases op with
+    | assign f v =>
+      simp only [step]
+      cases ha : r.assign f v with
+      | error e => exact h
+      | ok r' => simp only [RegionsVerif.Impl.Validate.ofExcept, noPairs, (readback ha).1]; exact h
+    | delete f =>
+      simp only [step]
+      cases ha : r.delete f with
+      | error e => exact h
+      | ok r' =>
+        have hc : r'.cls = r.cls := by
+          unfold RObj.delete at ha
+          split at ha
+          · cases ha
+          · cases ha
+          · split at ha
+            · cases ha; rfl
+            · cases ha
+        simp only [RegionsVerif.Impl.Validate.ofExcept, noPairs, hc]; exact h
+    | metaOp fld mop =>
+      cases fld with
+      | none => exact h
+      | some f =>
+        simp only [step]
+        cases hm : r.metaAt f with
+        | none => exact h
+        | some m =>
+          simp only
+          split
+          · exact h
+          · exact h
+    | listOp lop => exact h
+  | metaObj m => cases op <;> simp only [step] <;> (try split) <;> trivial
+  | rlist l => cases op <;> simp only [step] <;> trivial
+
+theorem noPairs_not_bad (o : Obj) (op : Op) (h : noPairs o) : opBad o op = false := by
+  cases o with
+  | region r =>
+    simp only [noPairs] at h
+    cases op with
+    | assign f v =>
+      simp only [opBad]
+      cases ha : r.assign f v with
+      | error e => rfl
+      | ok r' => simp [orderBad, (readback ha).1, h]
+    | _ => rfl
+  | metaObj m => cases op <;> rfl
+  | rlist l => cases op <;> rfl
+
+/-- **valid_invariant** at FULL strength for every object without an (inner, outer) pair – the 17
+non-annulus region classes, `RegionMeta` / `RegionVisual`, `Regions`: EVERY history of any length
+keeps the object valid. -/
+theorem valid_invariant_no_annulus (o : Obj) (ops : List Op) (hv : Valid o) (hn : noPairs o)
+    (hw : ops.all opWF = true) : Valid (run o ops) := by
+  induction ops generalizing o with
+  | nil => exact hv
+  | cons op ops ih =>
+    simp only [List.all_cons, Bool.and_eq_true] at hw
+    exact ih _ (step_valid o op hv hw.1 (noPairs_not_bad o op hn)) (step_noPairs o op hn) hw.2
 
 /-! ## 9. Constructors -/
 
-/-- a constructor argument of a failing class (F11 / F14c / corrupted Meta), evaluated on the
-values the constructor stores. -/
-def ctorBad (c : Cls) (a : CtorArgs) : Bool :=
-  (ctorPlan c a).any fun fe =>
+/-- well-formed constructor inputs: every value the constructor stores satisfies `metaWF`. -/
+def ctorWF (c : Cls) (a : CtorArgs) : Bool :=
+  (ctorPlan c a).all fun fe =>
     match fe.2 with
-    | .ok v => valueBad c fe.1 v
-    | .error _ => false
-
-/-- full strength: whatever a constructor returns is a valid region. -/
-def construct_valid_full : Prop :=
-  ∀ (c : Cls) (a : CtorArgs) (o : RObj), construct c a = .ok o → o.validB = true
-
-def nanCircleArgs : CtorArgs := { args := [("center", { kind := .pixCoord, scalar := true }),
-  ("radius", { kind := .pyFloat, scalar := true, num := .nan })] }
-
-/-- [F11] `CirclePixelRegion(center, float('nan'))` is constructed. -/
-theorem construct_valid_full_refuted : ¬ construct_valid_full := by
-  intro h
-  have hr : (construct .circleP nanCircleArgs).map RObj.validB = .ok false := by decide
-  cases hc : construct .circleP nanCircleArgs with
-  | error e => rw [hc] at hr; cases hr
-  | ok o =>
-    have hv := h _ _ o hc
-    rw [hc] at hr
-    simp only [Except.map, Except.ok.injEq] at hr
-    rw [hr] at hv
-    cases hv
+    | .ok v => metaWF v
+    | .error _ => true
 
 theorem assign_cls {o o' : RObj} {f : String} {v : Val} (h : o.assign f v = .ok o') :
     o'.cls = o.cls := (readback h).1
@@ -1679,11 +1601,12 @@ theorem size_domain {d : Descr} {v : Val} (hd : d = .posScalar ∨ d = .posScala
      | ninf => rw [hnum] at hn; cases hn
      | nan => rw [hnum] at hn; cases hn)
 
-/-- **constructors** (the property minus F11 / F14c): whatever a constructor returns, given
-arguments outside the failing classes, is a valid region – every parameter present and in its
-documented domain, inner < outer, nvertices ≥ 3.  For all 23 classes. -/
-theorem construct_valid_partial (c : Cls) (a : CtorArgs) (o : RObj) (h : construct c a = .ok o)
-    (hb : ctorBad c a = false) : o.validB = true := by
+/-- **constructors** (full strength, all 23 classes): whatever a constructor returns is a valid
+region – every parameter present and in its documented domain (finite positive sizes, scalar /
+1-D coordinates of the right kind, angular angles, `str` text, vocabulary-only metadata),
+inner < outer, nvertices ≥ 3. -/
+theorem construct_valid (c : Cls) (a : CtorArgs) (o : RObj) (h : construct c a = .ok o)
+    (hw : ctorWF c a = true) : o.validB = true := by
   obtain ⟨hpre, hseq, hpost⟩ := construct_ok h
   have hcls : o.cls = c := (assignSeq_frame hseq).1
   have hget := assignSeq_get hseq (plan_nodup c a)
@@ -1699,11 +1622,10 @@ theorem construct_valid_partial (c : Cls) (a : CtorArgs) (o : RObj) (h : constru
       obtain ⟨v, o1, o2, hev, hc1, hasg, hg⟩ := hget f' ev hmem'
       subst hev
       have hc1' : o1.cls = c := hc1
-      have hvb : valueBad o1.cls f' v = false := by
-        rw [hc1']
-        have := List.any_eq_false.mp hb (f', .ok v) hmem'
+      have hvw : metaWF v = true := by
+        have := List.all_eq_true.mp hw (f', .ok v) hmem'
         simpa using this
-      have hfo := assign_fieldOk hasg hvb at' (by rw [hc1']; exact lookup_of_mem (attrs_nodup c) hfa)
+      have hfo := assign_fieldOk hasg hvw at' (by rw [hc1']; exact lookup_of_mem (attrs_nodup c) hfa)
       rw [fieldOk_congr (o := o2) (o' := o) (f', at') hg]
       exact hfo
   -- the stored sizes are the arguments themselves
@@ -1763,17 +1685,22 @@ theorem construct_valid_partial (c : Cls) (a : CtorArgs) (o : RObj) (h : constru
     · have hbne : (c != Cls.regPolyP) = true := by simpa using hr
       simp only [hbne, Bool.true_or]
 
-/-- the hypothesis is satisfiable: a valid annulus construction. -/
+/-- a valid annulus construction meets the hypothesis … -/
 example : let a : CtorArgs := { args := [("center", { kind := .pixCoord, scalar := true }),
       ("inner_radius", { kind := .pyInt, scalar := true, num := .fin 2 }),
       ("outer_radius", { kind := .pyFloat, scalar := true, num := .fin 5 })] }
-    ctorBad .cAnnP a = false ∧ (construct .cAnnP a).toBool = true := by decide
+    ctorWF .cAnnP a = true ∧ (construct .cAnnP a).toBool = true := by decide
 
-/-- a constructor rejects inner ≥ outer and nvertices < 3 (the cross-field checks that assignment
-lacks, F14 / F14b). -/
+/-- … and the constructors refuse NaN sizes, inner ≥ outer, nvertices < 3, non-`str` text. -/
+example : construct .circleP { args := [("center", { kind := .pixCoord, scalar := true }),
+      ("radius", { kind := .pyFloat, scalar := true, num := .nan })] } = .error .valueError := by
+  decide
 example : construct .cAnnP { args := [("center", { kind := .pixCoord, scalar := true }),
       ("inner_radius", { kind := .pyInt, scalar := true, num := .fin 5 }),
       ("outer_radius", { kind := .pyInt, scalar := true, num := .fin 5 })] } = .error .valueError := by
+  decide
+example : construct .textP { args := [("center", { kind := .pixCoord, scalar := true }),
+      ("text", { kind := .pyInt, scalar := true, num := .fin 5 })] } = .error .valueError := by
   decide
 
 /-- mask / box shape agreement: a `RegionMask` exists only with `data.shape == bbox.shape`. -/
@@ -1783,22 +1710,30 @@ theorem mask_ctor_iff (s : List Int) (ny nx : Int) : maskCtor s ny nx = .ok () 
 
 /-! ## 10. The whole property for constructed objects -/
 
-/-- from ANY accepted constructor call outside the failing argument classes, EVERY history outside
-the failing operation classes ends in a valid region. -/
+/-- from ANY accepted constructor call, EVERY history without an accepted inner ≥ outer assignment
+(F14) ends in a valid region. -/
 theorem constructed_histories_valid (c : Cls) (a : CtorArgs) (o : RObj) (ops : List Op)
-    (h : construct c a = .ok o) (hc : ctorBad c a = false)
+    (h : construct c a = .ok o) (hc : ctorWF c a = true) (hw : ops.all opWF = true)
     (hh : histBad (.region o) ops = false) : Valid (run (.region o) ops) :=
-  valid_invariant_partial _ ops (construct_valid_partial c a o h hc) hh
+  valid_invariant_partial _ ops (construct_valid c a o h hc) hw hh
 
-/-- same for metadata objects and region lists, whose constructors have no failing class. -/
+/-- … and for every class without an (inner, outer) pair: EVERY history, full strength. -/
+theorem constructed_histories_valid_no_annulus (c : Cls) (a : CtorArgs) (o : RObj)
+    (ops : List Op) (h : construct c a = .ok o) (hc : ctorWF c a = true)
+    (hp : orderPairs c = []) (hw : ops.all opWF = true) : Valid (run (.region o) ops) := by
+  have hcls : o.cls = c := (assignSeq_frame (construct_ok h).2.1).1
+  exact valid_invariant_no_annulus _ ops (construct_valid c a o h hc)
+    (by simp only [noPairs, hcls]; exact hp) hw
+
+/-- metadata objects and region lists: EVERY history from EVERY constructor call, full strength. -/
 theorem constructed_meta_histories_valid (vis : Bool) (seq : MetaArg) (kw : Items) (m : MetaObj)
-    (ops : List Op) (h : MetaObj.ctor vis seq kw = .ok m)
-    (hh : histBad (.metaObj m) ops = false) : Valid (run (.metaObj m) ops) :=
-  valid_invariant_partial _ ops (meta_ctor_keysOk h).1 hh
+    (ops : List Op) (h : MetaObj.ctor vis seq kw = .ok m) (hw : ops.all opWF = true) :
+    Valid (run (.metaObj m) ops) :=
+  valid_invariant_no_annulus _ ops (meta_ctor_keysOk h).1 trivial hw
 
 theorem constructed_list_histories_valid (arg : Option (List Member × Bool)) (l : RList)
-    (ops : List Op) (h : RList.ctor arg = .ok l)
-    (hh : histBad (.rlist l) ops = false) : Valid (run (.rlist l) ops) :=
-  valid_invariant_partial _ ops (regions_ctor_typed h) hh
+    (ops : List Op) (h : RList.ctor arg = .ok l) (hw : ops.all opWF = true) :
+    Valid (run (.rlist l) ops) :=
+  valid_invariant_no_annulus _ ops (regions_ctor_typed h) trivial hw
 
 end RegionsVerif.Props.C17
